@@ -226,7 +226,7 @@ fn main_c11(tier: &str, seed: u64, replay: Option<&str>) -> i32 {
     ev.extra.insert("memory_oracle".into(), json!(mem_samples));
     ev.extra.insert("engine".into(), json!("E2-inproc: delta's sources linked as a library via a shadow manifest (cfg dandavison_delta_verif), delta::delta() driven through its BufRead and Write parameters"));
     ev.extra.insert("real_vs_stub".into(), json!({"real": ["option parsing, Config::from, StateMachine::consume and everything below it"], "stub": ["reader (SimReader) and writer (SimWriter) are the simulator; calling process fixed to a launched `git diff`"]}));
-    ev.extra.insert("simulated_steps".into(), json!({"quiescence_points": ev.counters.get("quiescence_points_checked")}));
+    ev.extra.insert("simulated_steps".into(), json!({"quiescence_points": ev.counters.get("quiescence_points_checked"), "simulated_time_covered_s": ev.counters.get("simulated_time_covered_ms").copied().unwrap_or(0) / 1000}));
     ev.assumptions = vec![
         "bound of oracle L is per side: at most line-buffer-size+1 removed and line-buffer-size+1 added lines of the open run may be unwritten".into(),
         "merge-conflict regions are excluded (held until their end marker by design)".into(),
